@@ -73,6 +73,20 @@ func childMain(mode string) {
 		} else {
 			out.WriteString("RET ok\n")
 		}
+	case "loopraw":
+		// the same entries stored through internal/file.WriteFile directly (the bytes a Set writes)
+		c1, err1 := os.ReadFile(os.Getenv("VH_C14_BUNDLE") + ".ref")
+		c2, err2 := os.ReadFile(os.Getenv("VH_C14_BUNDLE2") + ".ref")
+		if err1 != nil || err2 != nil {
+			fmt.Println("ERR", err1, err2)
+			os.Exit(3)
+		}
+		path := os.Getenv("VH_C14_KEYPATH")
+		out.WriteString("START\n")
+		for {
+			verifbridge.WriteFile(root, path, c1)
+			verifbridge.WriteFile(root, path, c2)
+		}
 	case "loop":
 		b1 := loadBundle(os.Getenv("VH_C14_BUNDLE"), false)
 		b2 := loadBundle(os.Getenv("VH_C14_BUNDLE2"), false)
